@@ -128,7 +128,7 @@ class Monitor(object):
                 self.flag("C14", "id-range", "%s: local id %d not in [1, 2^32-1]" % (where, pkt.arg0))
                 self.flag("C04", "open", "%s: local id is zero" % where)
             old = sim.streams.get(pkt.arg0)
-            if old is not None and not old.dead and not (old.dev_closed and old.host_closed):
+            if old is not None and not old.dead and not old.refused and not (old.dev_closed and old.host_closed):
                 self.flag("C14", "id-unique", "%s: local id %d is still in use by a live stream (%r)" % (where, pkt.arg0, old.dest))
                 self.flag("C04", "open", "%s: local id %d is not fresh" % (where, pkt.arg0))
             if pkt.arg1 != 0:
